@@ -32,7 +32,7 @@ def _warm():
 _warm()
 
 
-def report_unbuilt_bits(nfailed: int, draining: bool, pending: bool, miss_warn: bool, glob_bits: int) -> bool:
+def report_unbuilt_bits(nfailed: int, draining: bool, pending: bool, miss_warn: bool, glob_bits: int, ndetached_failed: int = 0) -> bool:
     """report_unbuilt: FAILED whenever a step failed; DRAINED iff draining; PENDING iff not draining
     and a required step remained pending; zero only if nothing failed, nothing is pending, no
     target is missing and no glob violation was found; a glob error yields FAILED whenever the
@@ -49,12 +49,29 @@ def report_unbuilt_bits(nfailed: int, draining: bool, pending: bool, miss_warn: 
         async def __aexit__(self, *a):
             return False
 
+    class Cur:
+        def __init__(self, rows):
+            self.rows = rows
+
+        def fetchone(self):
+            return self.rows[0] if self.rows else None
+
+        def __iter__(self):
+            return iter(self.rows)
+
+    class DBX(DB):
+        def execute(self, sql, args=()):
+            # any direct query over the step table also sees the detached (inactive) steps
+            if "count" in sql.lower():
+                return Cur([(nfailed + ndetached_failed,)])
+            return Cur([(k,) for k in range(nfailed + ndetached_failed)])
+
     class WF:
-        db = DB()
+        db = DBX()
 
         def steps(self, state):
             assert state == StepState.FAILED
-            return iter(range(nfailed))
+            return iter(range(nfailed))  # Workflow.steps() yields the active (attached) steps
 
     class Sched:
         pass
